@@ -426,6 +426,27 @@ func checkCLITarget(c *Ctx, r *Report) {
 			okTarget = true
 		}
 	})
+	// the target is tested (Stat) and created (Create) as one path: nothing
+	// on the way may change the working directory a relative target is
+	// resolved against
+	var chdir ssa.Instruction
+	for _, fn := range sortedFuncs(c, c.Reach(dp)) {
+		if !c.isModuleFunc(fn) {
+			continue
+		}
+		forEachInstr(fn, func(in ssa.Instruction) {
+			if call, ok := in.(ssa.CallInstruction); ok && chdir == nil {
+				if o := calleeObj(call); o != nil && (qualifiedName(o) == "os.Chdir" || o.Name() == "Chdir" && o.Pkg() != nil && o.Pkg().Path() == "os") {
+					chdir = in
+				}
+			}
+		})
+	}
+	if chdir != nil {
+		r.Fail("CLI-target", "doPackage: the working directory is not changed while the target is resolved", c.instrPos(chdir), "the working directory is changed on the packaging path of the command: a relative (or empty) target is tested against one directory and created in another")
+	} else {
+		r.Pass("CLI-target", "doPackage: the working directory is not changed while the target is resolved", c.pos(dp.Pos()), "no os.Chdir on the command's packaging path")
+	}
 	r.Check(okTarget, "CLI-target", "doPackage: Info.Target is the created path", c.instrPos(create), "the Info handed to the packager must carry the same path that is created")
 	// packager from the extension only when none is given
 	okInfer := false
@@ -592,6 +613,41 @@ func checkSameVersionExpr(c *Ctx, r *Report) {
 					fmt.Sprintf("file name uses %s, metadata uses %s: any extra transformation on one side makes name and header disagree for some input", got, meta[f]))
 			}
 		}
+	}
+	if pk := c.PackagerByFormat("archlinux"); pk != nil {
+		// the release: both sides format the same expression (the integer
+		// parse with its default, or neither)
+		pa := newProv(c)
+		collect := func(fns map[*ssa.Function]bool) map[string]bool {
+			out := map[string]bool{}
+			for _, fn := range sortedFuncs(c, fns) {
+				if c.funcPkgPath(fn) != pk.PkgPath {
+					continue
+				}
+				forEachInstr(fn, func(in ssa.Instruction) {
+					call, ok := in.(*ssa.Call)
+					if !ok || !calleeIs(call, "fmt", "", "Sprintf") || len(call.Call.Args) < 2 {
+						return
+					}
+					for _, a := range variadicOrdered(call.Call.Args[1]) {
+						if pa.Of(a).has("Info.Release") {
+							out[valueExpr(c, a, 0)] = true
+						}
+					}
+				})
+			}
+			return out
+		}
+		name := collect(c.Reach(pk.FileName))
+		meta := collect(c.Reach(pk.Package))
+		okRel := len(name) > 0
+		for e := range name {
+			if !meta[e] {
+				okRel = false
+			}
+		}
+		r.Check(okRel, "F14-same-expr", "archlinux: release in the file name is the expression written to pkgver", c.pos(pk.FileName.Pos()),
+			fmt.Sprintf("file name formats {%s}, .PKGINFO formats {%s}: a release that is not a plain decimal number (\"02\", \"2.1\") would be stated differently by the two", joinSorted(name), joinSorted(meta)))
 	}
 	if pk := c.PackagerByFormat("apk"); pk != nil {
 		// the function the template calls for pkgver is the one the file name calls
